@@ -90,7 +90,7 @@ def _episodes(spec, ctx):
             dag, info = sh.make_toy(rng)
             meta = info["meta"]
             n = info["n"]
-            settable = {nm: dict(shape=m["shape"], axis=m["axis"]) for nm, m in meta.items() if m["indep"] and m["kind"] != "hyper"}
+            settable = {nm: dict(shape=m["shape"], axis=m["axis"], weighted=bool(m.get("weighted"))) for nm, m in meta.items() if m["indep"] and m["kind"] != "hyper"}
             readable = list(meta)
             indwise = {nm for nm, m in meta.items() if m["indwise"]}
             real = sh.State(dag, auto_fork_type=sh.FORKS[fork])
@@ -139,7 +139,7 @@ def _episodes(spec, ctx):
             if extreme:
                 ctx.count("extreme_proposals")
             cur = run.ref.indep[var]
-            if rng.random() < 0.5 or cur is None:
+            if rng.random() < 0.5 or cur is None or settable[var].get("weighted"):
                 run.op_set(var)
             else:
                 # accumulate form used by the real samplers
